@@ -140,6 +140,9 @@ func (ex *Exec) intrinsic(caller *frame, fn *ssa.Function, args []value, pos tok
 		return tc.StrContains(args[0].(*Term), args[1].(*Term)), true
 	case "stringsHasPrefix":
 		return tc.StrPrefixOf(args[1].(*Term), args[0].(*Term)), true
+	case "verifRacePair":
+		ex.racePair(caller, ex.constStr(args[0], "pair name"), args[1], args[2], pos)
+		return nil, true
 	case "verifStop":
 		panic(pathDone{})
 	case "verifObserve":
@@ -531,15 +534,25 @@ func (ex *Exec) markShared(roots []value) {
 	if ex.sharedSet == nil {
 		ex.sharedSet = map[*value]bool{}
 		ex.sharedMaps = map[*mapV]bool{}
+		ex.cellNames = map[*value]string{}
 	}
+	if len(ex.sharedRoots) == 0 {
+		ex.sharedRoots = append(ex.sharedRoots, roots...)
+	}
+	// (re)walk from scratch: maps may have gained entries
+	ex.sharedMaps = map[*mapV]bool{}
+	visited := map[*value]bool{}
 	var walk func(v value)
 	var walkCell func(p *value)
 	walkCell = func(p *value) {
-		if p == nil || ex.sharedSet[p] {
+		if p == nil || visited[p] {
 			return
 		}
-		ex.sharedSet[p] = true
-		ex.sharedOrder = append(ex.sharedOrder, p)
+		visited[p] = true
+		if !ex.sharedSet[p] {
+			ex.sharedSet[p] = true
+			ex.sharedOrder = append(ex.sharedOrder, p)
+		}
 		walk(*p)
 	}
 	walk = func(v value) {
@@ -1330,4 +1343,126 @@ func (ex *Exec) statusTextOf(t *Term) *Term {
 		return ex.tc.Ite(t.args[0], ex.statusTextOf(t.args[1]), ex.statusTextOf(t.args[2]))
 	}
 	return ex.tc.UF("http_StatusText", StrSort, t)
+}
+
+type raceAccess struct {
+	write bool
+	locks map[int]string // lock index -> mode (W/R)
+}
+
+func parseLocks(desc string) map[int]string {
+	m := map[int]string{}
+	if desc == "" {
+		return m
+	}
+	for _, p := range strings.Split(desc, ",") {
+		var i int
+		var mode string
+		if n, _ := fmt.Sscanf(p, "L%d:%s", &i, &mode); n == 2 {
+			m[i] = mode
+		}
+	}
+	return m
+}
+
+// protectedBy: do two accesses hold a common lock in a mode that excludes each other?
+func protectedBy(a, b map[int]string) bool {
+	for i, ma := range a {
+		if mb, ok := b[i]; ok && (ma == "W" || mb == "W") {
+			return true
+		}
+	}
+	return false
+}
+
+// racePair runs two entry points one after the other from the current state with access
+// logging on the shared cells and maps (lockset analysis): two accesses to the same location,
+// at least one a write, with no common lock held in an excluding mode, are a data race of
+// two goroutines running the entry points concurrently.
+func (ex *Exec) racePair(caller *frame, name string, fa, fb value, pos token.Pos) {
+	run := func(f value) ([]accessRec, []mapAccessRec) {
+		ex.remarkShared()
+		ex.accessLog, ex.mapLog = nil, nil
+		ex.logAccess = true
+		func() {
+			defer func() {
+				ex.logAccess = false
+				if r := recover(); r != nil {
+					tp, isT := r.(targetPanic)
+					if !isT {
+						panic(r)
+					}
+					// an entry point that panics would hide its later accesses: not acceptable silently
+					panic(unsupported{"entry point of race pair " + name + " panicked: " + ex.panicMessage(tp.v)})
+				}
+			}()
+			if itf, ok := f.(iface); ok {
+				f = itf.v
+			}
+			ex.call(caller, f, nil, pos)
+		}()
+		return ex.accessLog, ex.mapLog
+	}
+	la, ma := run(fa)
+	lb, mb := run(fb)
+	if verbose {
+		fmt.Printf("    racePair %s: accesses A=%d/%d B=%d/%d shared cells=%d maps=%d\n", name, len(la), len(ma), len(lb), len(mb), len(ex.sharedSet), len(ex.sharedMaps))
+	}
+	conflict := ""
+	byCell := map[*value][]accessRec{}
+	for _, a := range la {
+		byCell[a.cell] = append(byCell[a.cell], a)
+	}
+	for _, b := range lb {
+		for _, a := range byCell[b.cell] {
+			if (a.write || b.write) && !protectedBy(parseLocks(a.locks), parseLocks(b.locks)) {
+				conflict = fmt.Sprintf("cell %s: %s under {%s} vs %s under {%s}", ex.describeCell(b.cell), rw(a.write), a.locks, rw(b.write), b.locks)
+				break
+			}
+		}
+		if conflict != "" {
+			break
+		}
+	}
+	if conflict == "" {
+		for _, b := range mb {
+			for _, a := range ma {
+				if a.m == b.m && (a.write || b.write) && !protectedBy(parseLocks(a.locks), parseLocks(b.locks)) {
+					conflict = fmt.Sprintf("map #%d: %s under {%s} vs %s under {%s}", a.m.id, rw(a.write), a.locks, rw(b.write), b.locks)
+					break
+				}
+			}
+			if conflict != "" {
+				break
+			}
+		}
+	}
+	label := "no-data-race/" + name
+	if conflict != "" {
+		ex.assert(label, ex.tc.False(), ex.pos(pos)+" "+conflict)
+	} else {
+		ex.assert(label, ex.tc.True(), ex.pos(pos))
+	}
+}
+
+func rw(w bool) string {
+	if w {
+		return "write"
+	}
+	return "read"
+}
+
+func (ex *Exec) describeCell(p *value) string {
+	if n, ok := ex.cellNames[p]; ok {
+		return n
+	}
+	return fmt.Sprintf("%p", p)
+}
+
+// remarkShared extends the shared set with everything reachable from the roots now
+// (objects published into shared state by earlier entry points).
+func (ex *Exec) remarkShared() {
+	if len(ex.sharedRoots) > 0 {
+		ex.markShared(ex.sharedRoots)
+	}
 }
